@@ -8,6 +8,7 @@ package main
 //  R13p  every extracted upload becomes its own multipart part
 
 import (
+	"fmt"
 	"go/constant"
 	"go/token"
 	"go/types"
@@ -84,6 +85,92 @@ func ruleVariableWrites(r *Run) {
 		}
 	}
 	r.AtLeast(rule, "writes to JSON containers in the upload extractor", n, 3)
+	// R3e.fresh: the tabled top-level write rests on every downstream request getting a
+	// Variables map of its own. Every value stored into requests.Request.Variables in the
+	// executor comes from a function each of whose returns yields a map made in that call
+	// (second table audit: a shortcut that returned the client's own map for a root step went
+	// unnoticed, and the second service lost its upload).
+	nv := 0
+	for _, fn := range r.P.Funcs {
+		if shortPkg(topFn(fn).Pkg.Pkg.Path()) != "executor" {
+			continue
+		}
+		for _, ins := range allInstrs(fn) {
+			st, ok := ins.(*ssa.Store)
+			if !ok {
+				continue
+			}
+			fa, ok := st.Addr.(*ssa.FieldAddr)
+			if !ok || fieldOf(fa) == nil || fieldOf(fa).Name() != "Variables" || !strings.HasSuffix(namedOf(fa.X.Type()), "requests.Request") {
+				continue
+			}
+			nv++
+			good, why := freshMap(r, st.Val, 0)
+			r.Check(good, "R3e.fresh", fnName(fn), "Variables of a downstream request", r.P.pos(st.Pos()),
+				"a map made for this request (every return of the function that supplies it yields a map created in that call)",
+				"the Variables map of a downstream request may be a map that others hold too ("+why+"): the upload extractor nulls upload slots in it in place, so another sub-request that uses the same map — or the client's own variables — loses the file, and the concurrent writes race")
+		}
+	}
+	r.AtLeast("R3e.fresh", "Variables maps handed to downstream requests", nv, 1)
+}
+
+// freshMap: v is a map created here (make / literal), or the result of a module function all
+// of whose non-nil returns are.
+func freshMap(r *Run, v ssa.Value, depth int) (bool, string) {
+	v = unwrap(v)
+	switch x := v.(type) {
+	case *ssa.MakeMap:
+		return true, ""
+	case *ssa.Const:
+		return x.IsNil(), "constant"
+	case *ssa.Extract:
+		if c, ok := x.Tuple.(*ssa.Call); ok {
+			return freshMapCall(r, c, x.Index, depth)
+		}
+	case *ssa.Call:
+		return freshMapCall(r, x, 0, depth)
+	case *ssa.UnOp:
+		// a local variable that lives in a cell (captured, or address taken)
+		if al, ok := x.X.(*ssa.Alloc); ok && x.Op == token.MUL && depth < 6 {
+			sts := storesTo(al)
+			for _, st := range sts {
+				if ok, why := freshMap(r, st.Val, depth+1); !ok {
+					return false, why
+				}
+			}
+			if len(sts) > 0 {
+				return true, ""
+			}
+		}
+	case *ssa.Phi:
+		if depth > 6 {
+			return false, "too deep"
+		}
+		for _, e := range x.Edges {
+			if ok, why := freshMap(r, e, depth+1); !ok {
+				return false, why
+			}
+		}
+		return true, ""
+	}
+	return false, "value of kind " + fmt.Sprintf("%T", v) + " at " + r.P.pos(v.Pos())
+}
+
+func freshMapCall(r *Run, c *ssa.Call, idx int, depth int) (bool, string) {
+	sc := c.Call.StaticCallee()
+	if sc == nil || !inModule(sc) || sc.Blocks == nil || depth > 3 {
+		return false, "result of " + calleeName(&c.Call)
+	}
+	for _, ret := range returnsOf(sc) {
+		vals := retVals(ret)
+		if idx >= len(vals) {
+			return false, "unexpected result shape of " + fnName(sc)
+		}
+		if ok, why := freshMap(r, vals[idx], depth+1); !ok {
+			return false, fnName(sc) + " returns " + why + " at " + r.P.pos(retPos(ret))
+		}
+	}
+	return true, ""
 }
 
 func describeContainer(v ssa.Value) string {
